@@ -12,7 +12,9 @@ def loops(kf):
     def F_at(n):
         base = FS if kf else FE
         return [(base[0] + '@loop%d' % n, base[1], base[2])]
-    RC = [] if kf else ['reps_copied(p@, it3.index@, state_mappings@, self.graph.edges(), graph.edges(), self.final_state_indices@, final_state_indices@)']
+    RCT = 'reps_copied(p@, it3.index@, state_mappings@, self.graph.edges(), graph.edges(), self.final_state_indices@, final_state_indices@)'
+    RC = [] if kf else [('recreate.reps_copied@loop3', ['C01', 'C02', 'C16'], RCT)]
+    RC4 = [] if kf else [('recreate.reps_copied@loop4', ['C01', 'C02', 'C16'], RCT)]
     l1 = ['seq_is(it1.seq(), p@)', 'pairwise_disjoint(p@)', 'graph.edges() == Map::<(State, State), Grapheme>::empty()',
           'state_mappings@.dom() == union_upto(p@, it1.index@)', 'dom_ok(state_mappings@, graph.nodes())',
           'state_mappings@.contains_key(self.initial_state) ==> new_initial_state == Some(state_mappings@[self.initial_state])'] + F_at(1) + ['*self == *old(self)']
@@ -28,9 +30,9 @@ def loops(kf):
     l3 = ['seq_is(it3.seq(), p@)'] + RC + req + ['state_mappings@.dom() == union_upto(p@, p@.len() as int)', 'dom_ok(state_mappings@, graph.nodes())',
           'new_initial_state == Some(state_mappings@[self.initial_state])'] + F_at(3) + ['*self == *old(self)']
     els = 'into_iter_elts(it4.snapshot@)'
-    l4 = ['seq_is(it3.seq(), p@)', '0 <= it3.index@ < p@.len()', 'it4.seq() == %s' % els, 'nb_ok(%s, old_source_state, self.graph.edges())' % els] + RC + [
+    l4 = ['seq_is(it3.seq(), p@)', '0 <= it3.index@ < p@.len()', 'it4.seq() == %s' % els, 'nb_ok(%s, old_source_state, self.graph.edges())' % els] + RC4 + [
           'p@[it3.index@]@.contains(old_source_state)', '0 <= it4.index@ <= it4.seq().len()'] + ([] if kf else [
-          'processed(%s, it4.index@, old_source_state, state_mappings@, graph.edges(), self.final_state_indices@, final_state_indices@)' % els]) + [req[1],
+          ('recreate.edges_and_marks_copied@loop4', ['C01', 'C02', 'C16'], 'processed(%s, it4.index@, old_source_state, state_mappings@, graph.edges(), self.final_state_indices@, final_state_indices@)' % els)]) + [req[1],
           'state_mappings@.contains_key(old_source_state)', '*new_source_state == state_mappings@[old_source_state]',
           'state_mappings@.dom() == union_upto(p@, p@.len() as int)', 'dom_ok(state_mappings@, graph.nodes())',
           'new_initial_state == Some(state_mappings@[self.initial_state])'] + F_at(4) + ['*self == *old(self)']
@@ -96,7 +98,7 @@ def blocks(kf):
 
 def build(repo, spec_dir, kf=False, canary=False):
     b = Builder('dfa_kf' if kf else 'dfa', repo, canary)
-    b.emit('use vstd::prelude::*;\nuse vstd::std_specs::cmp::*;\nuse vstd::std_specs::iter::IteratorSpec;\nuse vstd::std_specs::hash::*;\nuse vstd::std_specs::vec::*;\nuse std::collections::{HashMap, HashSet};\nverus! {')
+    b.emit('#![feature(allocator_api)]\nuse vstd::prelude::*;\nuse vstd::std_specs::cmp::*;\nuse vstd::std_specs::iter::IteratorSpec;\nuse vstd::std_specs::hash::*;\nuse vstd::std_specs::vec::*;\nuse std::collections::{BTreeSet, HashMap, HashSet};\nverus! {')
     b.emit('broadcast use {vstd::std_specs::hash::group_hash_axioms, axiom_nodeindex_key_model, lem::lemma_first_key_in_set, sp::lemma_processed_all};')
     b.type_item('config.rs', r'^pub struct RegExpConfig \{')
     b.type_item('grapheme.rs', r'^pub struct Grapheme \{')
@@ -104,17 +106,9 @@ def build(repo, spec_dir, kf=False, canary=False):
     b.emit('use pg::*;\ntype State = NodeIndex<u32>;\ntype StateLabel = String;\ntype EdgeLabel = Grapheme;')
     b.emit('pub assume_specification [<Grapheme as Clone>::clone] (e: &Grapheme) -> (r: Grapheme) ensures r == *e;')
     b.emit('pub mod sp {\nuse super::*;'); b.emit(open(spec_dir + '/dfa.rs').read()); b.emit('}\nuse sp::*;')
-    b.emit('''pub struct AlphabetStandIn { pub x: u8 }
-impl AlphabetStandIn { #[verifier::external_body] pub fn insert(&mut self, g: Grapheme) -> bool { unimplemented!() } }
-pub struct Dfa<'a> {
-    pub alphabet: AlphabetStandIn,
-    pub graph: StableGraph<StateLabel, EdgeLabel>,
-    pub initial_state: State,
-    pub final_state_indices: HashSet<usize>,
-    pub config: &'a RegExpConfig,
-}
-pub struct GraphemeCluster<'a> { pub graphemes: Vec<Grapheme>, pub config: &'a RegExpConfig }
-impl<'a> GraphemeCluster<'a> {''')
+    b.type_item('dfa.rs', r"^pub struct Dfa<'a> \{")
+    b.type_item('cluster.rs', r"^pub struct GraphemeCluster<'a> \{")
+    b.emit("impl<'a> GraphemeCluster<'a> {")
     b.verified_fn('cluster.rs', 'graphemes', within="^impl<'a> GraphemeCluster<'a> \\{", clauses=[Clause('cluster.graphemes', '*r == self.graphemes', ['C01'])], props=['C07'], fname='GraphemeCluster::graphemes')
     b.emit("}\nimpl<'a> Dfa<'a> {")
     D = "^impl<'a> Dfa<'a> \\{"
@@ -129,8 +123,8 @@ impl<'a> GraphemeCluster<'a> {''')
         post = ('exists|m: Map<State, State>| m.dom() == union_upto(p@, p@.len() as int) && final(self).initial_state == m[old(self).initial_state]'
                 ' && #[trigger] finals_exact(m, %s, %s) && reps_copied(p@, p@.len() as int, m, old(self).graph.edges(), final(self).graph.edges(), %s, %s)' % (F, F2, F, F2))
         cl = [Clause('recreate.initial_exact_edges', post, ['C01', 'C02', 'C16'])]
-    b.verified_fn('dfa.rs', 'recreate_graph', within=D, requires=req, clauses=cl, props=['C07', 'C01', 'C02', 'C16'], loops=loops(kf), blocks=blocks(kf), fname='Dfa::recreate_graph')
-    b.emit('}\n} // verus!\nimpl Clone for Grapheme { fn clone(&self) -> Self { unimplemented!() } }\nfn main() {}')
+    b.verified_fn('dfa.rs', 'recreate_graph', within=D, requires=req, clauses=cl, props=['C07', 'C01', 'C02', 'C16'], loops=loops(kf), blocks=[tuple(x) + ((('recreate.finals_sound', ['C01', 'C16']) if kf else ('recreate.initial_exact_edges', ['C01', 'C02', 'C16'])),) for x in blocks(kf)], fname='Dfa::recreate_graph')
+    b.emit('}\n} // verus!\nimpl Clone for Grapheme { fn clone(&self) -> Self { unimplemented!() } }\nimpl PartialEq for Grapheme { fn eq(&self, o: &Self) -> bool { unimplemented!() } }\nimpl Eq for Grapheme {}\nimpl PartialOrd for Grapheme { fn partial_cmp(&self, o: &Self) -> Option<std::cmp::Ordering> { unimplemented!() } }\nimpl Ord for Grapheme { fn cmp(&self, o: &Self) -> std::cmp::Ordering { unimplemented!() } }\nfn main() {}')
     b.trusted += ['petgraph stand-in (StableGraph::{new, add_node, add_edge, neighbors, find_edge, edge_weight}, NodeIndex::index) with ghost nodes/edges; NodeIndex obeys the hash-key model',
                   'preconditions of recreate_graph (non-empty, pairwise disjoint, covering classes) are assumed of its unverified caller minimize',
                   'derived Clone on Grapheme is structural']
@@ -139,17 +133,7 @@ impl<'a> GraphemeCluster<'a> {''')
 
 # ---------------------------------------------------------------------------------------------------------------------
 # unit `trie`: Dfa::insert / return_next_state / find_next_state / add_new_state (stage S2a: the trie accepts every inserted word)
-PRELUDE_TYPES = '''pub struct AlphabetStandIn { pub x: u8 }
-impl AlphabetStandIn { #[verifier::external_body] pub fn insert(&mut self, g: Grapheme) -> bool { unimplemented!() } }
-pub struct Dfa<'a> {
-    pub alphabet: AlphabetStandIn,
-    pub graph: StableGraph<StateLabel, EdgeLabel>,
-    pub initial_state: State,
-    pub final_state_indices: HashSet<usize>,
-    pub config: &'a RegExpConfig,
-}
-pub struct GraphemeCluster<'a> { pub graphemes: Vec<Grapheme>, pub config: &'a RegExpConfig }
-pub uninterp spec fn ascii_fold(s: Seq<char>) -> Seq<char>;
+PRELUDE_TYPES = '''pub uninterp spec fn ascii_fold(s: Seq<char>) -> Seq<char>;
 pub assume_specification [str::eq_ignore_ascii_case] (a: &str, b: &str) -> (r: bool) ensures r == (ascii_fold(a@) == ascii_fold(b@));
 // std::cmp::{min, max} at u32 (dfa.rs imports them by name): specified stand-ins
 #[verifier::external_body] pub fn min(a: u32, b: u32) -> (r: u32) ensures r == (if a <= b { a } else { b }) { unimplemented!() }
@@ -158,7 +142,7 @@ pub assume_specification [str::eq_ignore_ascii_case] (a: &str, b: &str) -> (r: b
 
 def build_trie(repo, spec_dir, canary=False):
     b = Builder('trie', repo, canary)
-    b.emit('use vstd::prelude::*;\nuse vstd::std_specs::cmp::*;\nuse vstd::std_specs::hash::*;\nuse vstd::std_specs::vec::*;\nuse std::collections::{HashMap, HashSet};\nverus! {')
+    b.emit('#![feature(allocator_api)]\nuse vstd::prelude::*;\nuse vstd::std_specs::cmp::*;\nuse vstd::std_specs::hash::*;\nuse vstd::std_specs::vec::*;\nuse std::collections::{BTreeSet, HashMap, HashSet};\nverus! {')
     b.emit('broadcast use {vstd::std_specs::hash::group_hash_axioms, axiom_nodeindex_key_model, sp::lemma_scanned_all};')
     b.type_item('config.rs', r'^pub struct RegExpConfig \{')
     b.type_item('grapheme.rs', r'^pub struct Grapheme \{')
@@ -166,6 +150,8 @@ def build_trie(repo, spec_dir, canary=False):
     b.emit('use pg::*;\ntype State = NodeIndex<u32>;\ntype StateLabel = String;\ntype EdgeLabel = Grapheme;')
     b.emit('pub assume_specification [<Grapheme as Clone>::clone] (e: &Grapheme) -> (r: Grapheme) ensures r == *e;')
     b.emit('pub mod sp {\nuse super::*;'); b.emit(open(spec_dir + '/dfa.rs').read()); b.emit('}\nuse sp::*;')
+    b.type_item('dfa.rs', r"^pub struct Dfa<'a> \{")
+    b.type_item('cluster.rs', r"^pub struct GraphemeCluster<'a> \{")
     b.emit(PRELUDE_TYPES)
     G = r'^impl Grapheme \{'
     b.emit('impl Grapheme {')
@@ -237,7 +223,28 @@ def build_trie(repo, spec_dir, canary=False):
                 }
             }"""),
                           (None, 'fn_end', '        proof { assert(cluster.graphemes@.take(cluster.graphemes@.len() as int) =~= cluster.graphemes@); assert(self.final_state_indices@ == old(self).final_state_indices@.insert(current_state.ix as usize)); }')])
-    b.emit('}\n} // verus!\nimpl Clone for Grapheme { fn clone(&self) -> Self { unimplemented!() } }\nfn main() {}')
+    b.verified_fn('dfa.rs', 'new', within=D, props=['C07'], fname='Dfa::new',
+                  clauses=[Clause('dfa_new.empty_automaton', 'r.graph.edges() == Map::<(State, State), Grapheme>::empty() && r.graph.nodes() == set![r.initial_state] && r.final_state_indices@ == Set::<usize>::empty() && r.config == config', ['C01', 'C16'])])
+    b.assumed_fn('dfa.rs', 'minimize', within=D, ensures=['true'], why='Hopcroft refinement (HashSet algebra, drain, enumerate().skip(), position(closure)); assumed language-preserving by the stage contract S2b, nothing is used here')
+    ALL = 'forall|k: int| 0 <= k < %s ==> #[trigger] accepted_cov(%s.graph.edges(), %s.initial_state, %s.final_state_indices@, grapheme_clusters@[k].graphemes@)'
+    b.verified_fn('dfa.rs', 'from', within=D, props=['C07'], fname='Dfa::from',
+                  requires=['forall|k: int, i: int| 0 <= k < grapheme_clusters@.len() && 0 <= i < grapheme_clusters@[k].graphemes@.len() ==> exact_label(#[trigger] grapheme_clusters@[k].graphemes@[i])'],
+                  clauses=[Clause('dfa_from.every_cluster_accepted', '!is_minimized ==> ' + ALL % ('grapheme_clusters@.len()', 'r', 'r', 'r'), ['C01', 'C16'])],
+                  loops={1: [('dfa_from.iterates_all_clusters@loop1', ['C01', 'C16'], 'it1.seq().len() == grapheme_clusters@.len() && forall|k: int| 0 <= k < it1.seq().len() ==> *#[trigger] it1.seq()[k] == grapheme_clusters@[k]'),
+                             'forall|k: int, i: int| 0 <= k < grapheme_clusters@.len() && 0 <= i < grapheme_clusters@[k].graphemes@.len() ==> exact_label(#[trigger] grapheme_clusters@[k].graphemes@[i])',
+                             inv('dfa'), ('dfa_from.every_cluster_accepted@loop1', ['C01', 'C16'], ALL % ('it1.index@', 'dfa', 'dfa', 'dfa'))]},
+                  blocks=[(1, 'loop_start', '            let ghost d0 = dfa; proof { assert(*cluster == grapheme_clusters@[it1.index@]); }'),
+                          (1, 'loop_end', """            proof {
+                assert forall|k: int| 0 <= k < it1.index@ + 1 implies #[trigger] accepted_cov(dfa.graph.edges(), dfa.initial_state, dfa.final_state_indices@, grapheme_clusters@[k].graphemes@) by {
+                    if k < it1.index@ {
+                        lemma_accepted_mono(d0.graph.edges(), dfa.graph.edges(), dfa.initial_state, d0.final_state_indices@, dfa.final_state_indices@, grapheme_clusters@[k].graphemes@);
+                    } else {
+                        let last = choose|last: State| #[trigger] path_cov(dfa.graph.edges(), dfa.initial_state, cluster.graphemes@, last) && dfa.final_state_indices@ == d0.final_state_indices@.insert(last.ix as usize);
+                        assert(path_cov(dfa.graph.edges(), dfa.initial_state, grapheme_clusters@[k].graphemes@, last) && dfa.final_state_indices@.contains(last.ix as usize));
+                    }
+                }
+            }""", ('dfa_from.every_cluster_accepted@loop1', ['C01', 'C16']))])
+    b.emit('}\n} // verus!\nimpl Clone for Grapheme { fn clone(&self) -> Self { unimplemented!() } }\n// derived Ord/Eq of Grapheme (only needed to type-check the BTreeSet alphabet; never specified)\nimpl PartialEq for Grapheme { fn eq(&self, o: &Self) -> bool { unimplemented!() } }\nimpl Eq for Grapheme {}\nimpl PartialOrd for Grapheme { fn partial_cmp(&self, o: &Self) -> Option<std::cmp::Ordering> { unimplemented!() } }\nimpl Ord for Grapheme { fn cmp(&self, o: &Self) -> std::cmp::Ordering { unimplemented!() } }\nfn main() {}')
     b.trusted += ['petgraph stand-in (StableGraph::{add_node, add_edge, update_edge, neighbors, find_edge, edge_weight}) with ghost nodes/edges',
                   'preconditions of insert (graph closed under its node set, exact labels min == max >= 1) are assumed of its unverified callers Dfa::new / Dfa::from and of the clusters',
                   'Grapheme::value() is Vec<String>::join (uninterpreted `joined`); BTreeSet alphabet insertion is opaque', 'std::cmp::{min,max} at u32']
